@@ -40,9 +40,9 @@ def run_cases(chk, n_fam, n_cases, gen_handlers, oracle=None, label="tree"):
                 hs = gen_handlers(rng, fam, roots)
             else:
                 hs = gen_handlers(rng, fam)
-            # a bare declaration that nothing supplies ends the activation with ptera's name error: the model tree
-            # has a raise there (nothing is bound, no handler sees a value); an overriding handler could supply
-            # the variable and let the call go on — those combinations are left out
+            # a bare declaration that nothing supplies ends the activation with ptera's name error (the model's
+            # interaction without a value); an overriding handler could supply the variable and let the call go
+            # on — those combinations are left out
             decl = False
             for fi, script in roots:
                 d, r = fam.fires_decl(fi, script)
@@ -59,8 +59,6 @@ def run_cases(chk, n_fam, n_cases, gen_handlers, oracle=None, label="tree"):
                 continue
             if decl:
                 chk.dist("declaration-not-supplied")
-                if err is not None and err.get("err") == "PteraNameError":
-                    err = {"err": "Boom"}
             req = treecorr.model_request(fam, hj, roots)
             m = drv.ask(req)
             nact = sum(fam.n_activations(s, fi) for fi, s in roots)
